@@ -20,6 +20,9 @@ type C02Step struct {
 	Doc   int             `json:"doc,omitempty"` // which of the open documents (0 or 1)
 	Edits []refmodel.Edit `json:"edits,omitempty"`
 	Text  string          `json:"text,omitempty"`
+	// FullAt: for a change batch, the index of the entry that is a full-text change (Text), -1 / absent
+	// when every entry is ranged. LSP allows both kinds in one contentChanges array.
+	FullAt *int `json:"fullAt,omitempty"`
 }
 
 type C02Case struct {
@@ -156,7 +159,18 @@ func genC02(t *rapid.T) C02Case {
 		default:
 			st.Kind = "change"
 			k := rapid.IntRange(1, 3).Draw(t, "batch")
+			fullAt := -1
+			if rapid.IntRange(0, 5).Draw(t, "mixedBatch") == 0 {
+				fullAt = rapid.IntRange(0, k-1).Draw(t, "fullAt")
+				st.FullAt = &fullAt
+			}
 			for i := 0; i < k; i++ {
+				if i == fullAt {
+					st.Text = c02GenText(t, 6, "batchFull")
+					text[d] = st.Text
+					st.Edits = append(st.Edits, refmodel.Edit{})
+					continue
+				}
 				e := c02GenEdit(t, text[d])
 				nt, ok := refmodel.Apply(text[d], e)
 				if !ok {
@@ -219,7 +233,12 @@ func checkC02(c C02Case, env *Env) *Violation {
 			add(harness.DidOpen(rel, text[d]))
 		case "change":
 			var changes []harness.M
-			for _, e := range st.Edits {
+			for ei, e := range st.Edits {
+				if st.FullAt != nil && *st.FullAt == ei {
+					text[d] = st.Text
+					changes = append(changes, harness.M{"text": st.Text})
+					continue
+				}
 				if isC02NT(text[d], e) {
 					nontrivial = true
 				}
@@ -282,6 +301,9 @@ func checkC02(c C02Case, env *Env) *Violation {
 			}
 			if len(st.Edits) > 1 {
 				env.Stats.Class("batch>1")
+			}
+			if st.FullAt != nil && len(st.Edits) > 1 {
+				env.Stats.Class("batch-mixing-full-and-ranged")
 			}
 		}
 	}
